@@ -548,7 +548,13 @@ pub fn execute(scn: &Scenario, ctx: &mut Ctx) {
                 // failure" for parse_record_nocopy)
                 let nonempty = exp.out.kind == Some(ErrorKind::NonEmpty);
                 let same_class = got.out.class == exp.out.class || (!nonempty && got.out.is_rejection() && exp.out.is_rejection());
-                if !same_class {
+                // a truncated / empty alert or ChangeCipherSpec record on an idle parser: the statement's
+                // general rule gives Incomplete (and accumulation), the record layer's rule (C03) a
+                // rejection; either is within the statements
+                let either = alert_ccs_truncated && (got.out.is_incomplete() || got.out.is_rejection());
+                if either {
+                    ctx.count("oracle/truncated_alert_ccs_either_answer", 1);
+                } else if !same_class {
                     ctx.violate(Prop::C07, "defrag-model/result-class", || {
                         format!("op {} ({} type={} len={}): model expects {}, parser answered {}", opno, it.kind, ctype, rec_len, exp.show(), got.show())
                     });
